@@ -240,9 +240,9 @@ func (g *Gen) plan(bulk bool, req []int, avoid map[int]bool) Plan {
 		p.Adv = g.loadTime()
 	}
 	if bulk {
-		p.Shape = []int{0, 0, 0, 1, 1, 2, 2, 3, 4}[r.Intn(9)]
+		p.Shape = []int{0, 0, 0, 1, 1, 2, 2, 3, 4, 5, 5}[r.Intn(11)]
 		p.Mask = r.U64()
-		if p.Shape == 2 {
+		if p.Shape == 2 || p.Shape == 5 {
 			n := 1 + r.Intn(3)
 			for i := 0; i < n; i++ {
 				k := g.key()
